@@ -125,6 +125,8 @@ pub struct Sim {
     pub context: String,
     /// (heap id, peak accounted memory seen at a check_collect of that heap)
     pub mem_watch: Option<(u32, usize)>,
+    /// heaps whose freed objects belong to a recorded finding when they are touched (heap id -> tag)
+    pub tagged_heaps: BTreeMap<u32, String>,
 }
 
 static SIM: Mutex<Option<Sim>> = Mutex::new(None);
@@ -146,6 +148,7 @@ pub fn begin(tape: Tape) {
         events: 0,
         context: String::new(),
         mem_watch: None,
+        tagged_heaps: BTreeMap::new(),
     });
 }
 
@@ -243,10 +246,10 @@ fn on_freed(kind: &'static str, owner: u32, _addr: usize) {
         // the heap walker records the object itself and the engine reports it
         return;
     }
-    let context = SIM
+    let (context, heap_tag) = SIM
         .try_lock()
         .ok()
-        .and_then(|g| g.as_ref().map(|s| s.context.clone()))
+        .and_then(|g| g.as_ref().map(|s| (s.context.clone(), s.tagged_heaps.get(&owner).cloned())))
         .unwrap_or_default();
     // A freed (poisoned, quarantined) gc object was dereferenced / marked / walked: the run cannot
     // continue (the data is poison). Report and leave the process.
@@ -254,7 +257,9 @@ fn on_freed(kind: &'static str, owner: u32, _addr: usize) {
         "use-after-free",
         format!(
             "{}{} of a freed gc object owned by heap {} while: {}",
-            if context.contains("module-level cell") {
+            if let Some(tag) = heap_tag {
+                format!("{}: ", tag)
+            } else if context.contains("module-level cell") {
                 "module-level cell: ".to_string()
             } else if let (Some(a), Some(b)) = (context.find("{{"), context.find("}}")) {
                 // the engine tags situations that belong to a recorded finding
